@@ -20,7 +20,11 @@ def provoked_case(seed, k):
     names = universe.opt_names()
     opt = names[k % len(names)]
     cfg, klass = universe.make_config(rng, opt)
-    if k % 3 == 2:
+    if k % 7 == 5:
+        # a seed outside numpy's 32-bit range: the call is rejected by np.random.seed - and must leave the task as it was
+        spec = universe.make_spec(rng, kind=rng.choice(["continuous", "mixed"]))
+        spec["seed"] = rng.choice([-1, -12345, 2 ** 32, 2 ** 32 + 5, 2 ** 40 + 7])
+    elif k % 3 == 2:
         # EarlyStopping(patience=None) / (min_delta=None) pass the model's validators but make the stop rule raise
         # TypeError after the first cycle: an exception path in the middle of a run
         spec = universe.make_spec(rng, kind=rng.choice(["continuous", "mixed"]))
